@@ -422,6 +422,30 @@ func IsInfinity(group int, p []byte) bool {
 	return a.IsInfinity()
 }
 
+// P1VerifyThenReuse: see api.Ops.
+func P1VerifyThenReuse(N uint64, beacon []byte, contribs [][]byte, other []byte) ([]byte, []byte, error) {
+	c := make([]*mpcsetup.Phase1, len(contribs))
+	for i := range contribs {
+		var err error
+		if c[i], err = p1Read(contribs[i]); err != nil {
+			return nil, nil, err
+		}
+	}
+	commons, err := mpcsetup.VerifyPhase1(N, beacon, c...)
+	if err != nil {
+		return nil, nil, err
+	}
+	var before, after bytes.Buffer
+	if _, err := commons.WriteTo(&before); err != nil {
+		return nil, nil, err
+	}
+	_, _ = c[len(c)-1].ReadFrom(bytes.NewReader(other)) // the next stream the coordinator receives
+	if _, err := commons.WriteTo(&after); err != nil {
+		return nil, nil, err
+	}
+	return before.Bytes(), after.Bytes(), nil
+}
+
 // Reencode: see api.Ops.
 func Reencode(kind string, b []byte, pieces []int) ([]byte, int64, error) {
 	r := &api.PieceReader{Data: b, Pieces: pieces}
@@ -467,6 +491,7 @@ var Ops = &api.Ops{
 		}
 		return s.Step, nil
 	},
-	Reencode:  Reencode,
-	Generator: Generator, Scale: Scale, IsInfinity: IsInfinity, AddTorsion: AddTorsion,
+	Reencode:          Reencode,
+	P1VerifyThenReuse: P1VerifyThenReuse,
+	Generator:         Generator, Scale: Scale, IsInfinity: IsInfinity, AddTorsion: AddTorsion,
 }
